@@ -179,8 +179,31 @@ class Ctx:
         return out
 
 
-def gate_grep():
-    """Reject forbidden vernacular anywhere under coq/ (sources only)."""
+def dep_cone(targets):
+    """.v files in the dependency cone of the make targets (from coq/.Makefile.d); None if unknown."""
+    try:
+        deps = {}
+        for line in open(os.path.join(COQ, ".Makefile.d")):
+            if ".vo " not in line.split(":")[0] + " " or ":" not in line:
+                continue
+            lhs, rhs = line.split(":", 1)
+            vo = [x for x in lhs.split() if x.endswith(".vo")]
+            if vo:
+                deps[vo[0]] = [x for x in rhs.split() if x.endswith(".vo")]
+        seen, todo = set(), [t for t in targets]
+        while todo:
+            t = todo.pop()
+            if t in seen:
+                continue
+            seen.add(t)
+            todo.extend(deps.get(t, []))
+        return {t[:-1] for t in seen}
+    except Exception:
+        return None
+
+
+def gate_grep(cone=None):
+    """Reject forbidden vernacular under coq/ (sources only); restricted to the files of `cone` when given."""
     pat = re.compile(r'\b(Admitted|admit|Axiom|Axioms|Parameter|Parameters|Conjecture|Admit Obligations|'
                      r'bypass_check|Unset Guard Checking|Unset Positivity Checking|Unset Universe Checking|'
                      r'type-in-type|impredicative-set)\b')
@@ -189,6 +212,8 @@ def gate_grep():
         for fn in files:
             if fn.endswith(".v"):
                 p = os.path.join(base, fn)
+                if cone is not None and os.path.relpath(p, COQ) not in cone:
+                    continue
                 txt = open(p).read()
                 txt = re.sub(r'\(\*.*?\*\)', '', txt, flags=re.S)
                 for i, l in enumerate(txt.splitlines(), 1):
